@@ -66,8 +66,9 @@ func setPropsFromMapRecursive(val reflect.Value, updates map[string]any) (staged
 					break
 				}
 
-				// Check if it's a ConfigProp
-				if fieldVal.CanAddr() {
+				// Check if it's a ConfigProp. Unexported fields (the internals of a ConfigProp, reachable with
+				// an empty key) cannot be turned into an interface value: Interface() would panic on them.
+				if fieldVal.CanAddr() && fieldVal.CanInterface() {
 					fieldAddr := fieldVal.Addr()
 					if prop, ok := fieldAddr.Interface().(StagedConfigProp); ok {
 						valueBytes, err := json.Marshal(value)
